@@ -831,6 +831,8 @@ impl BuddyAllocator {
         requires old(self).wf2(),
         ensures final(self).wf2(), final(self).same_shape(*old(self)),
             r matches Some(p) ==> old(self).st().cov(order as int, p as int) && !final(self).st().cov(order as int, p as int),
+            r matches Some(p) ==> forall|k: int, y: int| 0 <= k <= order ==> #[trigger] final(self).st().cov(k, y)
+                    == (old(self).st().cov(k, y) && !is_anc(k, y, order as int, p as int)),
             r is None ==> forall|k: int, q: int| order <= k ==> !#[trigger] old(self).st().a(k, q),
             r matches Some(p) ==> order <= old(self).max_order && (p as int) < old(self).ord(order as int).len
                 && final(self).ord(order as int).bit_at(p as int),
@@ -893,6 +895,8 @@ impl BuddyAllocator {
         requires old(self).wf2(),
         ensures final(self).wf2(), final(self).same_shape(*old(self)),
             r ==> old(self).st().cov(order as int, page_number as int) && !final(self).st().cov(order as int, page_number as int),
+            r ==> forall|k: int, y: int| 0 <= k <= order ==> #[trigger] final(self).st().cov(k, y)
+                    == (old(self).st().cov(k, y) && !is_anc(k, y, order as int, page_number as int)),
             !r ==> !old(self).st().cov(order as int, page_number as int),
             r ==> order <= old(self).max_order && (page_number as int) < old(self).ord(order as int).len
                 && final(self).ord(order as int).bit_at(page_number as int),
@@ -1179,8 +1183,14 @@ impl BS {
             !o.fs[k0].leaf().bit_at(x), f.fs[k0].leaf().bit_at(x),
             forall|j: int| 0 <= j < o.n(k0) && j != x ==> #[trigger] f.fs[k0].leaf().bit_at(j) == o.fs[k0].leaf().bit_at(j),
         ensures f.inv1(), f.inv2(), o.cov(k0, x), !f.cov(k0, x),
+            forall|k: int, y: int| 0 <= k <= k0 ==> #[trigger] f.cov(k, y) == (o.cov(k, y) && !is_anc(k, y, k0, x)),
     {
         assert forall|k: int| 0 <= k <= o.m implies #[trigger] f.n(k) == o.n(k) by {}
+        assert(o.added(f, k0, x)) by {
+            assert forall|k: int, q: int| !(k == k0 && q == x) implies #[trigger] o.a(k, q) == f.a(k, q) by {
+                if k == k0 { if 0 <= q < o.n(k0) { assert(f.fs[k0].leaf().bit_at(q) == o.fs[k0].leaf().bit_at(q)); } }
+            }
+        }
         assert(f.fewer(o)) by {
             assert forall|k: int, q: int| #[trigger] f.a(k, q) implies o.a(k, q) by {
                 if k == k0 { if q != x { assert(f.fs[k0].leaf().bit_at(q) == o.fs[k0].leaf().bit_at(q)); } }
@@ -1194,6 +1204,7 @@ impl BS {
         f.lemma_cov_frame(o, k0 + 1, k0 + 1, x / 2);
         assert(!o.cov(k0 + 1, x / 2));
         assert(!f.a(k0, x));
+        BS::lemma_view_removed(o, f, k0, x);
     }
 
     pub proof fn lemma_alloc_case_b(s: BS, s1: BS, f: BS, k0: int, u: int)
@@ -1206,7 +1217,9 @@ impl BS {
             f.fs[k0].leaf().len == s1.fs[k0].leaf().len, 2 * u + 1 < s.n(k0),
             !f.fs[k0].leaf().bit_at(2 * u + 1),
             forall|j: int| 0 <= j < s.n(k0) && j != 2 * u + 1 ==> #[trigger] f.fs[k0].leaf().bit_at(j) == s1.fs[k0].leaf().bit_at(j),
+            forall|k: int, y: int| 0 <= k <= k0 + 1 ==> #[trigger] s1.cov(k, y) == (s.cov(k, y) && !is_anc(k, y, k0 + 1, u)),
         ensures f.inv1(), f.inv2(), s.cov(k0, 2 * u), !f.cov(k0, 2 * u),
+            forall|k: int, y: int| 0 <= k <= k0 ==> #[trigger] f.cov(k, y) == (s.cov(k, y) && !is_anc(k, y, k0, 2 * u)),
     {
         let q1 = 2 * u + 1;
         assert(s1.fs[k0] == s.fs[k0]);
@@ -1236,6 +1249,8 @@ impl BS {
         }
         f.lemma_cov_frame(s1, k0 + 1, k0 + 1, u);
         assert(!f.a(k0, 2 * u));
+        assert(sbuddy(2 * u) == q1);
+        BS::lemma_view_split(s, s1, f, k0, u, 2 * u);
     }
 }
 
@@ -1382,7 +1397,9 @@ impl BS {
             f.fs[k0].leaf().len == s1.fs[k0].leaf().len,
             !f.fs[k0].leaf().bit_at(sbuddy(keep)),
             forall|j: int| 0 <= j < s.n(k0) && j != sbuddy(keep) ==> #[trigger] f.fs[k0].leaf().bit_at(j) == s1.fs[k0].leaf().bit_at(j),
+            forall|k: int, y: int| 0 <= k <= k0 + 1 ==> #[trigger] s1.cov(k, y) == (s.cov(k, y) && !is_anc(k, y, k0 + 1, u)),
         ensures f.inv1(), f.inv2(), s.cov(k0, keep), !f.cov(k0, keep),
+            forall|k: int, y: int| 0 <= k <= k0 ==> #[trigger] f.cov(k, y) == (s.cov(k, y) && !is_anc(k, y, k0, keep)),
     {
         let give = sbuddy(keep);
         assert(give / 2 == u);
@@ -1412,6 +1429,67 @@ impl BS {
         }
         f.lemma_cov_frame(s1, k0 + 1, k0 + 1, u);
         assert(!f.a(k0, keep));
+        BS::lemma_view_split(s, s1, f, k0, u, keep);
+    }
+}
+pub proof fn lemma_anc_unique(k: int, x: int, o: int, q1: int, q2: int)
+    requires is_anc(k, x, o, q1), is_anc(k, x, o, q2),
+    ensures q1 == q2,
+    decreases o - k,
+{
+    if k < o { lemma_anc_unique(k + 1, x / 2, o, q1, q2); }
+}
+
+impl BS {
+    // nothing at or below an uncovered block with nothing free below it is covered
+    pub proof fn lemma_not_cov_below(&self, k: int, x: int, o: int, q: int)
+        requires is_anc(k, x, o, q), !self.cov(o, q), self.no_free_below(o, q), 0 <= k,
+        ensures !self.cov(k, x),
+        decreases o - k,
+    {
+        if k < o {
+            self.lemma_not_cov_below(k + 1, x / 2, o, q);
+            if self.a(k, x) { assert(!is_anc(k, x, o, q)); }
+        }
+    }
+
+    // view clause when exactly the free block (ko, qo) is removed (alloc case A, record_alloc "set" case)
+    pub proof fn lemma_view_removed(o: BS, f: BS, ko: int, qo: int)
+        requires o.added(f, ko, qo), o.inv1(), !f.cov(ko, qo),
+        ensures forall|k: int, x: int| 0 <= k <= ko ==> #[trigger] f.cov(k, x) == (o.cov(k, x) && !is_anc(k, x, ko, qo)),
+    {
+        o.lemma_free_block_no_free_below(ko, qo);
+        assert(f.no_free_below(ko, qo)) by {
+            assert forall|j: int, y: int| #[trigger] f.a(j, y) && j < ko implies !is_anc(j, y, ko, qo) by {
+                assert(o.a(j, y));
+            }
+        }
+        assert forall|k: int, x: int| 0 <= k <= ko implies #[trigger] f.cov(k, x) == (o.cov(k, x) && !is_anc(k, x, ko, qo)) by {
+            o.lemma_cov_added(f, ko, qo, k, x);
+            if is_anc(k, x, ko, qo) { f.lemma_not_cov_below(k, x, ko, qo); }
+        }
+    }
+
+    // view clause for the split case: s1 = s minus everything under (ko+1, u); f = s1 plus block (ko, give); keep = buddy of give
+    pub proof fn lemma_view_split(s: BS, s1: BS, f: BS, ko: int, u: int, keep: int)
+        requires
+            0 <= ko, 0 <= keep, keep / 2 == u, f.added(s1, ko, sbuddy(keep)), s.cov(ko + 1, u),
+            forall|k: int, x: int| 0 <= k <= ko + 1 ==> #[trigger] s1.cov(k, x) == (s.cov(k, x) && !is_anc(k, x, ko + 1, u)),
+        ensures
+            forall|k: int, x: int| 0 <= k <= ko ==> #[trigger] f.cov(k, x) == (s.cov(k, x) && !is_anc(k, x, ko, keep)),
+    {
+        let give = sbuddy(keep);
+        assert forall|k: int, x: int| 0 <= k <= ko implies #[trigger] f.cov(k, x) == (s.cov(k, x) && !is_anc(k, x, ko, keep)) by {
+            f.lemma_cov_added(s1, ko, give, k, x);
+            lemma_anc_split(k, x, ko, keep);
+            assert(s1.cov(k, x) == (s.cov(k, x) && !is_anc(k, x, ko + 1, u)));
+            if is_anc(k, x, ko, give) {
+                lemma_anc_up(k, x, ko, give);
+                assert(give / 2 == u);
+                s.lemma_cov_up(k, x, ko + 1, u);
+                if is_anc(k, x, ko, keep) { lemma_anc_unique(k, x, ko, give, keep); }
+            }
+        }
     }
 }
 
